@@ -93,10 +93,11 @@ class AutonomousModeSelector:
         except ImportError as e:
             # only a module that cannot be found means "there is no such
             # package"; any other ImportError comes from the package's own code
-            if not isinstance(e, ModuleNotFoundError) or e.name not in [
-                autonomous_pkgname,
-                autonomous_pkgname.split(".")[0],
-            ]:
+            # ... the package itself or any package it is nested in
+            if not isinstance(e, ModuleNotFoundError) or not (
+                e.name is not None
+                and (autonomous_pkgname + ".").startswith(e.name + ".")
+            ):
                 # the package exists but something it imports does not:
                 # same policy as for the modules inside it
                 if not wpilib.DriverStation.isFMSAttached():
